@@ -16,6 +16,7 @@ import (
 	"github.com/ddddddO/gtree"
 	"github.com/fatih/color"
 
+	"verifharness/enum"
 	"verifharness/fsx"
 	"verifharness/rep"
 )
@@ -365,6 +366,17 @@ func init() {
 			{"invalid-name", "- a\n  - b/c\n"},
 			{"empty", ""},
 			{"long-line", "- a\n  - " + strings.Repeat("x", 70000) + "\n"},
+		}
+		if c.Thorough() {
+			// thorough: every forest with up to 3 nodes over {a, b.go} is a document too
+			for n := 1; n <= 3; n++ {
+				enum.DepthSeqs(n, func(d []int) {
+					enum.Tuples(n, 2, func(t []int) {
+						doc := enum.Spell(d, enum.Pick([]string{"a", "b.go"}, t), enum.Canonical)
+						docs = append(docs, struct{ name, doc string }{fmt.Sprintf("forest%q", doc), doc})
+					})
+				})
+			}
 		}
 		var cases []c16Case
 		add := func(cs c16Case) { cs.Kind = "proc-c16"; cases = append(cases, cs) }
